@@ -35,6 +35,26 @@ def cases(tier, seed):
             for k, part in enumerate([aseqs[i::4] for i in range(4)]):
                 out.append({"kind": "apply", "N": Na, "G": 3, "ncols": ncols, "masked": masked, "codes_list": [list(c) for c in part],
                             "name": f"GroupBy.apply(user function)/N={Na},G=3/value columns={ncols}/mask={masked}/{len(part)} code sequences (part {k})"})
+    # median / quantile: the real GroupBy.median / GroupBy.quantile, with np.median / np.quantile as uninterpreted functions of the
+    # values they are handed (NumPy's own functions are the specification: what is checked is WHAT they are called on)
+    for masked in (False, True):
+        for k, part in enumerate([aseqs[i::2] for i in range(2)]):
+            out.append({"kind": "apply", "N": Na, "G": 3, "ncols": 1, "masked": masked, "via": "median", "codes_list": [list(c) for c in part],
+                        "name": f"GroupBy.median/N={Na},G=3/mask={masked}/{len(part)} code sequences (part {k})"})
+            out.append({"kind": "apply_vec", "N": Na, "G": 3, "ret": "fixed2", "masked": masked, "via": "quantile", "q": [0.25, 0.75], "codes_list": [list(c) for c in part],
+                        "name": f"GroupBy.quantile(q=[0.25, 0.75])/N={Na},G=3/mask={masked}/{len(part)} code sequences (part {k})"})
+    for order in ([2, 0, 1],):
+        for k, part in enumerate([aseqs[i::2] for i in range(2)]):
+            out.append({"kind": "apply", "N": Na, "G": 3, "ncols": 1, "masked": True, "transform": True, "label_order": order, "via": "median", "codes_list": [list(c) for c in part],
+                        "name": f"GroupBy.median(transform=True)/N={Na},G=3/label order {order}/mask=True/{len(part)} code sequences (part {k})"})
+    # composite helpers on the public reduction path (labelled pandas contract model, as in C01's assembly family)
+    for labels, st in (([0, 1], "categorical"), ([1, 0], "appearance"), (["b", "a"], "appearance")):
+        for mk in ("none", "bool_sym"):
+            for comp in ("agg_list", "ratio", "density", "density_size"):
+                c = {"kind": "composite", "comp": comp, "N": 3, "G": 2, "labels": labels, "state": st, "mask": {"kind": mk}, "dtype": "float64", "func": "sum",
+                     "observed_only": True}
+                c["name"] = f"GroupBy.{comp}/N=3,G=2/labels={labels}({st})/mask={mk}"
+                out.append(c)
     # vector-valued user functions: input-aligned (one value per row of the group) or fixed length; values AND the kind of index chosen
     for ret in ("aligned", "fixed1", "fixed2"):
         for masked in (False, True):
@@ -55,6 +75,8 @@ def run_case(E, case):
         return run_var(E, case)
     if case["kind"] == "apply_vec":
         return run_apply_vec(E, case)
+    if case["kind"] == "composite":
+        return run_composite(E, case)
     return run_apply(E, case)
 
 
@@ -179,7 +201,15 @@ def run_apply(E, case):
             extra = {"codes": list(codes), "mask": list(mbits) if mbits is not None else None}
             del aliased[:]
             try:
-                out = gb.apply(vals if ncols > 1 else vals[0], user, mask, bool(case.get("transform")))
+                if case.get("via") == "median":
+                    npshim = E["core"]["np"]
+                    npshim.median = user               # instance attribute shadows the model for this call only
+                    try:
+                        out = gb.median(vals[0], mask, bool(case.get("transform")))
+                    finally:
+                        del npshim.median
+                else:
+                    out = gb.apply(vals if ncols > 1 else vals[0], user, mask, bool(case.get("transform")))
             except (Unsupported, OutsideModel):
                 raise
             except Exception as e:      # noqa: BLE001
@@ -234,11 +264,190 @@ def run_apply(E, case):
     return res
 
 
+# ------------------------------------------------------------------ composite helpers: agg list, ratio, density
+def run_composite(E, case):
+    """agg([f1, f2]) == the individual calls side by side; ratio == sum / sum; single-key density == 100 * group share (adds up to 100).
+    The real methods (agg, ratio, density, sum, size, max, _apply_gb_reduction with margins, add_row_margin for one level) run on a
+    directly constructed state and the labelled pandas contract model; the observed-label filter forks."""
+    from . import assembly as ASM
+    from . import reductions as R
+    from ..runtime import run_paths, _model_gap
+    from ..symarray import fdiv
+    from ..values import total
+    t0 = time.time()
+    comp, N, G, labels = case["comp"], case["N"], case["G"], case["labels"]
+    inp = Inputs()
+    d = R.build(case, inp)
+    inp.pre.extend(ASM.state_invariant(case, d["codes"]))
+    dt = real_np.dtype("float64")
+    if comp == "ratio":
+        # documented precondition of ratio: both inputs null at the same rows
+        w = inp.values("w", N, dt, sum_safe=True)
+        d["values2"] = [SF(v.nan, x.v) if isinstance(v, SF) else x for v, x in zip(d["values"], w)]
+    merged = MergedRT()
+
+    def body():
+        gb = ASM._state(E, case, d)
+        arrs = R.shadow_arrays(case, d)
+        try:
+            if comp == "agg_list":
+                return "ok", gb.agg(arrs["values"], ["sum", "max"], mask=arrs["mask"])
+            if comp == "ratio":
+                return "ok", gb.ratio(arrs["values"], A(d["values2"], dt).tag("input:values"), mask=arrs["mask"])
+            if comp == "density":
+                return "ok", gb.density(arrs["values"], mask=arrs["mask"])
+            return "ok", gb.density(mask=arrs["mask"])
+        except (Unsupported, OutsideModel):
+            raise
+        except Exception as e:      # noqa: BLE001
+            gap = _model_gap(e)
+            if gap:
+                raise Unsupported("model gap: " + gap) from e
+            return "raised", f"{type(e).__name__}: {e}"
+    paths = run_paths(body)
+    rows = R.selected_rows(case, d)
+    bads = []
+    member = [[b_and(s_, c == g) for c, v, s_ in rows] for g in range(G)]
+    observed = [b_or(*member[g]) for g in range(G)]
+    from .reductions import is_null_val, num
+
+    def gsum(vals, g, size=False):
+        if size:
+            return total([ite(m, 1, 0) for m in member[g]], 0)
+        return total([ite(b_and(m, b_not(is_null_val(v, dt))), num(v), 0) for m, v in zip(member[g], vals)], 0)
+    for pc, (status, out), rt in paths:
+        pcz = b_and(*pc) if pc else True
+        for kind, g_, c_, where in rt.obligations:
+            merged.obligations.append((kind, b_and(pcz, g_), c_, where))
+        merged.pre.extend(rt.pre)
+        if status == "raised":
+            bads.append((f"raises {out[:120]}", pcz))
+            continue
+        if comp == "agg_list":
+            if not isinstance(out, FakeFrame) or list(out.columns) != ["sum", "max"]:
+                bads.append((f"agg list must give one column per aggregation, got {getattr(out, 'columns', type(out).__name__)}", pcz))
+                continue
+            series = {"sum": out["sum"], "max": out["max"]}
+        else:
+            if not isinstance(out, FakeSeries):
+                bads.append((f"a Series was expected, got {type(out).__name__}", pcz))
+                continue
+            series = {comp: out}
+        for name, ser in series.items():
+            got = list(ser.index.labels)
+            cells = ser.arr.cells
+            for g in range(G):
+                pos = [i for i, lab in enumerate(got) if lab == labels[g] and type(lab) is type(labels[g])]
+                if len(pos) > 1:
+                    bads.append((f"{name}: label {labels[g]!r} listed twice", pcz))
+                    continue
+                if not pos:
+                    bads.append((f"{name}: label {labels[g]!r} missing although a selected row carries it", b_and(pcz, observed[g])))
+                    continue
+                bads.append((f"{name}: label {labels[g]!r} listed although no selected row carries it", b_and(pcz, b_not(observed[g]))))
+                r = cells[pos[0]]
+                if name in ("sum", "max"):
+                    sub = dict(case, func=name)
+                    res = [0] * G
+                    res[g] = r
+                    for lab, cond in R.spec_bads(sub, d, res, None):
+                        if f"[g={g}]" in lab:
+                            bads.append((f"agg list column {lab} equals the individual call", b_and(pcz, cond)))
+                elif name == "ratio":
+                    exp = fdiv(gsum(d["values"], g), gsum(d["values2"], g))
+                    bads.append((f"ratio[{labels[g]!r}] == sum(values1) / sum(values2)", b_and(pcz, b_not(R.approx_same(r, exp)))))
+                else:
+                    size = name == "density_size"
+                    vals = d.get("values")
+                    tot = total([gsum(vals, h, size) for h in range(G)], 0)
+                    exp = fdiv(100 * gsum(vals, g, size), tot)
+                    bads.append((f"density[{labels[g]!r}] == 100 * group total / grand total", b_and(pcz, b_not(R.approx_same(r, exp)))))
+            extra = [lab for lab in got if not any(lab == l2 and type(lab) is type(l2) for l2 in labels)]
+            if extra:
+                bads.append((f"{name}: unexpected labels {extra!r}", pcz))
+    dec = decide(inp, bads, merged)
+    r = {"verdict": dec.verdict, "solver_s": dec.solver_s, "symex_s": time.time() - t0 - dec.solver_s, "n_queries": dec.n_queries,
+         "obligations": dec.obligations, "failed_obligations": dec.failed_obligations, "witnesses": dec.witnesses, "candidates": [],
+         "encoded": sorted(E.encoded), "paths": len(paths)}
+    if dec.verdict == "sat":
+        r["candidates"].append({"signature": f"{PROP}:composite:{comp}:{case['state']}:mask={case['mask']['kind'] != 'none'}", "case": case,
+                                "inputs": jsonable(dec.model), "kind": "property", "labels": dec.which[:4]})
+    if dec.failed_obligations:
+        r["verdict"] = "sat"
+        r["candidates"].append({"signature": f"{PROP}:obligation:composite:{comp}", "case": case, "inputs": jsonable(dec.ob_model), "kind": "obligation",
+                                "labels": [f"{a}@{b}" for a, b in dec.failed_obligations[:4]]})
+    return r
+
+
+def replay_composite(case, conc):
+    import pandas as pd
+    from groupby_lib import GroupBy
+    from . import reductions as R
+    from ..harness import to_float_cells
+    conc = fix_nans(conc)
+    comp, N, G, labels = case["comp"], case["N"], case["G"], case["labels"]
+    codes = [int(x) for x in conc["k"]]
+    v = R.np_values(to_float_cells(conc["v"]), "float64")
+    mask = real_np.array(conc["m"], dtype=bool) if "m" in conc else None
+    if case["state"] == "categorical":
+        keys = pd.Categorical.from_codes(codes, categories=labels)
+    elif all(isinstance(x, (int, float)) for x in labels):
+        keys = real_np.array([float(labels[c]) if c >= 0 else float("nan") for c in codes])
+    else:
+        keys = real_np.array([labels[c] if c >= 0 else None for c in codes], dtype=object)
+    sel = [codes[i] >= 0 and (mask is None or mask[i]) for i in range(N)]
+    problems = []
+    try:
+        gb = GroupBy(keys)
+        if comp == "agg_list":
+            out = gb.agg(v, ["sum", "max"], mask=mask)
+            ref = {"sum": gb.sum(v, mask=mask), "max": gb.max(v, mask=mask)}
+            for name in ("sum", "max"):
+                a, b = out[name], ref[name]
+                if list(a.index) != list(b.index) or not real_np.array_equal(real_np.asarray(a, float), real_np.asarray(b, float), equal_nan=True):
+                    problems.append(f"agg list column {name}: {a.to_dict()} != individual call {b.to_dict()}")
+        else:
+            if comp == "ratio":
+                w = R.np_values(to_float_cells(conc["w"]), "float64")
+                w = real_np.where(real_np.isnan(v), real_np.nan, w)
+                out = gb.ratio(v, w, mask=mask)
+            elif comp == "density":
+                out = gb.density(v, mask=mask)
+            else:
+                out = gb.density(mask=mask)
+            for g in range(G):
+                rows = [i for i in range(N) if sel[i] and codes[i] == g]
+                listed = [lab for lab in out.index if lab == labels[g]]
+                if bool(rows) != bool(listed):
+                    problems.append(f"label {labels[g]!r}: listed={bool(listed)} but it has {len(rows)} selected row(s)")
+                    continue
+                if not rows:
+                    continue
+                got = float(out.loc[listed[0]])
+                if comp == "ratio":
+                    exp = float(real_np.nansum(v[rows])) / float(real_np.nansum(w[rows])) if float(real_np.nansum(w[rows])) != 0 else None
+                elif comp == "density":
+                    tot = float(real_np.nansum(v[[i for i in range(N) if sel[i]]]))
+                    exp = 100 * float(real_np.nansum(v[rows])) / tot if tot != 0 else None
+                else:
+                    exp = 100 * len(rows) / sum(sel)
+                if exp is not None and not approx_same(got, exp):
+                    problems.append(f"{comp}[{labels[g]!r}] = {got!r}, expected {exp!r}")
+    except Exception as e:      # noqa: BLE001
+        problems.append(f"real call raised {type(e).__name__}: {e}")
+    return bool(problems), {"problems": problems[:5], "codes": codes, "labels": labels, "inputs": jsonable(conc)}
+
+
 # ------------------------------------------------------------------ apply with vector-valued user functions
 class _MarkIndex(FakeIndex):
     def __init__(self, n, kind):
         FakeIndex.__init__(self, n)
         self.kind = kind
+        self.names = [None, None]
+
+    def set_levels(self, levels, level=None, **kw):
+        self.levels_set = list(levels)
+        return self
 
 
 def run_apply_vec(E, case):
@@ -284,7 +493,15 @@ def run_apply_vec(E, case):
                 sel = [codes[i] >= 0 and (mbits is None or mbits[i]) for i in range(N)]
                 groups = [g for g in range(G) if any(sel[i] and codes[i] == g for i in range(N))]
                 try:
-                    out = gb.apply(vals, user, mask)
+                    if case.get("via") == "quantile":
+                        npshim = E["core"]["np"]
+                        npshim.quantile = lambda a, q=None: user(a)
+                        try:
+                            out = gb.quantile(vals, case["q"], mask)
+                        finally:
+                            del npshim.quantile
+                    else:
+                        out = gb.apply(vals, user, mask)
                 except (Unsupported, OutsideModel):
                     raise
                 except Exception as e:      # noqa: BLE001
@@ -343,8 +560,11 @@ def replay_vec(case, conc):
           "fixed2": lambda a: real_np.array([a.sum(), a[0] - a[-1]])}[ret]
     sel = [codes[i] >= 0 and (mask is None or mask[i]) for i in range(N)]
     groups = [g for g in range(G) if any(sel[i] and codes[i] == g for i in range(N))]
+    if case.get("via") == "quantile":
+        q = case["q"]
+        fn = lambda a: real_np.quantile(a, q)      # noqa: E731
     try:
-        out = gb.apply(vals, fn, mask)
+        out = gb.quantile(vals, case["q"], mask) if case.get("via") == "quantile" else gb.apply(vals, fn, mask)
     except Exception as e:      # noqa: BLE001
         return True, f"real call raised {type(e).__name__}: {e}"
     exp_vals, exp_inner = [], []
@@ -357,6 +577,12 @@ def replay_vec(case, conc):
     problems = []
     if len(got_vals) != len(exp_vals) or any(not approx_same(a, b) for a, b in zip(got_vals, exp_vals)):
         problems.append(f"values {got_vals} != {exp_vals}")
+    if case.get("via") == "quantile":
+        inner = [float(x) for x in out.index.get_level_values(out.index.nlevels - 1)]
+        want = [float(case["q"][j]) for j in exp_inner]
+        if inner != want:
+            problems.append(f"quantile level {inner} != {want}")
+        return bool(problems), {"problems": problems, "codes": codes, "mask": case.get("mask")}
     try:
         inner = [int(x) for x in out.index.get_level_values(out.index.nlevels - 1)]
     except Exception as e:      # noqa: BLE001
@@ -366,6 +592,51 @@ def replay_vec(case, conc):
     return bool(problems), {"problems": problems, "codes": codes, "mask": case.get("mask")}
 
 
+def replay_median(case, conc):
+    import pandas as pd
+    from groupby_lib import GroupBy
+    from . import c03 as C3
+    N, G, codes = case["N"], case["G"], case["codes"]
+    vals = real_np.array([float(x) for x in conc["v0_"]])
+    mask = real_np.array(case["mask"], dtype=bool) if case.get("mask") is not None else None
+    sel = [codes[i] >= 0 and (mask is None or mask[i]) for i in range(N)]
+    try:
+        if case.get("transform"):
+            gb = C3.real_gb(G, codes=codes)
+            order = case.get("label_order")
+            if order is not None and order != sorted(order):
+                gb.__dict__["_labels_argsort"] = real_np.array(order)
+                gb._sort = True
+                gb._index_is_sorted = False
+            out = real_np.asarray(gb.median(vals, mask, True), dtype=float)
+            bad = []
+            for i in range(N):
+                mem = [vals[j] for j in range(N) if sel[j] and codes[j] == codes[i] and codes[i] >= 0]
+                exp = float(real_np.median(mem)) if mem else float("nan")
+                if not approx_same(float(out[i]), exp):
+                    bad.append((i, float(out[i]), exp))
+            return bool(bad), {"wrong_rows": jsonable(bad[:6]), "codes": codes, "mask": case.get("mask")}
+        gb = GroupBy(pd.Categorical.from_codes(codes, categories=[f"g{g}" for g in range(G)]))
+        out = gb.median(vals, mask)
+        bad = []
+        for g in range(G):
+            mem = [vals[i] for i in range(N) if sel[i] and codes[i] == g]
+            if not mem:
+                if f"g{g}" in out.index:
+                    bad.append((g, "listed although it has no selected row"))
+                continue
+            try:
+                got = float(out.loc[f"g{g}"])
+            except Exception as e:      # noqa: BLE001
+                bad.append((g, f"missing: {e}"))
+                continue
+            if not approx_same(got, float(real_np.median(mem))):
+                bad.append((g, got, float(real_np.median(mem))))
+        return bool(bad), {"problems": jsonable(bad[:6]), "codes": codes, "mask": case.get("mask")}
+    except Exception as e:      # noqa: BLE001
+        return True, f"real call raised {type(e).__name__}: {e}"
+
+
 # ------------------------------------------------------------------ replay through the public API
 def replay(case, conc, cand=None):
     import pandas as pd
@@ -373,6 +644,10 @@ def replay(case, conc, cand=None):
     conc = fix_nans(conc)
     if case.get("kind") == "apply_vec":
         return replay_vec(case, conc)
+    if case.get("kind") == "composite":
+        return replay_composite(case, conc)
+    if case.get("via") == "median":
+        return replay_median(case, conc)
     N, G = case["N"], case["G"]
     codes = case["codes"]
     keys = pd.Series([float(c) if c >= 0 else float("nan") for c in codes] + [float(g) for g in range(G)])
@@ -459,7 +734,7 @@ def replay(case, conc, cand=None):
 
 
 META = {
-    "glue": ['groupby_lib/groupby/core.py::apply', 'groupby_lib/groupby/core.py::std', 'groupby_lib/groupby/core.py::var'],
+    "glue": ['groupby_lib/groupby/core.py::apply', 'groupby_lib/groupby/core.py::median', 'groupby_lib/groupby/core.py::quantile', 'groupby_lib/util.py::check_if_func_is_non_reduce', 'groupby_lib/groupby/core.py::std', 'groupby_lib/groupby/core.py::var'],
     "bounds": {"quick": {"var/std": "N=4,G=2, a third of the 81 code sequences x every null pattern", "apply": "N=4,G=3, all 256 code sequences, 1-2 value columns, a fifth of the masks"},
                "thorough": {"var/std": "N=5,G=2, all code sequences x every null pattern", "apply": "N=5,G=3"}},
     "enumerated": ["code sequence and null pattern (counts become constants: the variance check is then a polynomial identity)", "ddof", "masks for apply", "number of value columns"],
